@@ -131,7 +131,43 @@ def datetime_now(ex, p, args, kwargs, e):
 def os_path_exists(ex, p, args, kwargs, e): return VBool(fresh('exists', z3.BoolSort()))          # T8: any answer
 def os_makedirs(ex, p, args, kwargs, e): return VNone()
 def builtin_open(ex, p, args, kwargs, e): return VExt('file', tuple(args))                          # T8: a handle; content is not modelled
-def file_write(ex, p, args, kwargs, e): return VNone()          # args[0] is the handle
+# ---- ghost log of file writes (T8): write number w went to a file whose name has the shape <directory>/<FS.idx(w)>.txt (FS.shaped(w)),
+#      opened for writing, and carried the text FS.txt(w) (FS.hastxt(w): the content is a text assembled in whole lines, models_text)
+FS_DEFAULTS = {'fs_n': z3.Int('FS.writes0'), 'fs_idx': z3.Array('FS.idx0', I, I), 'fs_shaped': z3.Array('FS.shaped0', I, B),
+               'fs_txt': z3.Array('FS.txt0', I, Text), 'fs_hastxt': z3.Array('FS.hastxt0', I, B)}
+
+
+def fs_get(p, name):
+    if name not in p.ghost: p.ghost[name] = FS_DEFAULTS[name]
+    return p.ghost[name]
+
+
+def file_write(ex, p, args, kwargs, e):
+    h = args[0]; content = args[1] if len(args) > 1 else None; n = fs_get(p, 'fs_n')
+    name = h.data[0] if isinstance(h, VExt) and h.data else None; mode = h.data[1] if isinstance(h, VExt) and h.data and len(h.data) > 1 else None
+    shaped = False; idx = fresh('fileno', I)
+    if isinstance(name, VStr) and isinstance(mode, VStr) and mode.atoms == ['w']:
+        a = name.atoms
+        if len(a) == 3 and isinstance(a[0], tuple) and a[0][0] == 'opaque' and isinstance(a[1], tuple) and a[1][0] == 'int' and a[2] == '.txt':
+            a = [a[0], '', a[1], a[2]]
+        if len(a) == 4 and isinstance(a[0], tuple) and a[0][0] == 'opaque' and a[1] == '/' and isinstance(a[2], tuple) and a[2][0] == 'int' and a[3] == '.txt':
+            shaped = True; idx = a[2][1]
+    p.ghost['fs_idx'] = z3.Store(fs_get(p, 'fs_idx'), n, idx); p.ghost['fs_shaped'] = z3.Store(fs_get(p, 'fs_shaped'), n, z3.BoolVal(shaped))
+    p.ghost['fs_hastxt'] = z3.Store(fs_get(p, 'fs_hastxt'), n, z3.BoolVal(isinstance(content, VText)))
+    if isinstance(content, VText): p.ghost['fs_txt'] = z3.Store(fs_get(p, 'fs_txt'), n, content.t)
+    else: fs_get(p, 'fs_txt')
+    p.ghost['fs_n'] = n + 1
+    return VNone()
+
+
+file_write.mods = lambda ex, n, p: {('ghost', k) for k in FS_DEFAULTS}
+
+
+def spec_files_written(ex, e, p): return VInt(fs_get(p, 'fs_n'))
+def spec_file_index(ex, e, p): return VInt(z3.Select(fs_get(p, 'fs_idx'), ex.ev(e.args[0], p).t))
+def spec_file_named_ok(ex, e, p): return VBool(z3.Select(fs_get(p, 'fs_shaped'), ex.ev(e.args[0], p).t))
+def spec_file_has_text(ex, e, p): return VBool(z3.Select(fs_get(p, 'fs_hastxt'), ex.ev(e.args[0], p).t))
+def spec_file_text(ex, e, p): return VText(z3.Select(fs_get(p, 'fs_txt'), ex.ev(e.args[0], p).t))
 def file_close(ex, p, args, kwargs, e): return VNone()
 
 
@@ -160,6 +196,7 @@ def spec_line_ties(ex, e, p):
 
 def install(ex):
     ex.iter_models['file'] = iter_file
+    for _n, _f in (('files_written', spec_files_written), ('file_index', spec_file_index), ('file_named_ok', spec_file_named_ok), ('file_has_text', spec_file_has_text), ('file_text', spec_file_text)): ex.spec_ext[_n] = _f
     ex.spec_ext['file_len'] = spec_file_len; ex.spec_ext['line_toks'] = spec_line_toks; ex.spec_ext['line_ties'] = spec_line_ties
     ex.ext_models['os.path.exists'] = os_path_exists; ex.ext_models['os.makedirs'] = os_makedirs
     ex.ext_models['open'] = builtin_open; ex.ext_models['file.write'] = file_write; ex.ext_models['file.close'] = file_close
